@@ -675,9 +675,6 @@ static void on_watchdog(int) { siglongjmp(g_f_jmp, 1); }
 // returns 0 = the outer operation did not fault (nothing tested), 1 = both operations completed, 2 = blocked
 static int __attribute__((noinline)) interrupted_op(rtosc::ThreadLink *tl, char outer, char nested)
 {
-    // every blocked operation costs a watchdog period: after a few of them in this process the point is made and the
-    // remaining interrupted operations are not attempted any more (reported as "did not fault": result 0)
-    if(g_f_blocked_seen >= 8) return 0;
     if(!g_page) {
         g_page = (char *) mmap(NULL, 4096, PROT_READ | PROT_WRITE, MAP_PRIVATE | MAP_ANONYMOUS, -1, 0);
         if(g_page == (char *) MAP_FAILED) { g_page = NULL; return 0; }
@@ -731,6 +728,9 @@ static int __attribute__((noinline)) interrupted_op(rtosc::ThreadLink *tl, char 
 static std::string op_tlink(const std::vector<std::string> &w)
 {
     if(w.size() < 4) return "bad-op";
+    // an operation that blocked was abandoned while it (or the operation it waited for) held whatever it waits on; if that
+    // is a process-wide lock every later ThreadLink operation of this process would hang: they are not run any more
+    if(g_f_blocked_seen) return "skip a previous ThreadLink operation of this process blocked (reported there as blocked=1)";
     size_t maxmsg = strtoul(w[1].c_str(), NULL, 10), nmsgs = strtoul(w[2].c_str(), NULL, 10);
     if(maxmsg < 16 || maxmsg > 65536 || nmsgs < 1 || nmsgs > 64) return "bad-op";
     std::deque<TlOp> ops;
